@@ -96,6 +96,8 @@ SPELLINGS = {
     40.0: ["40", "4e1", "40.0"],
     0.25: ["0.25", ".25", "2.5e-1"],
     12.75: ["12.75", "1275e-2"],
+    2e-9: ["2e-9", "2E-09", "0.000000002"],
+    6e-9: ["6e-9", "6.0e-9"],
 }
 
 
@@ -109,6 +111,9 @@ def rand_weight(rnd, zero_ok=False):
     vals = [1.0, 2.0, 3.0, 0.5, 0.1, 7.0, 8.0, 10.0, 2.5, 40.0, 0.25, 12.75]
     if zero_ok and rnd.random() < 0.15:
         return 0.0
+    if rnd.random() < 0.12:
+        # weights on a tiny scale / next to each other: proportions are exact ratios, never "equal up to a tolerance"
+        return rnd.choice([2e-9, 6e-9, 2e-9, 6e-9, 1.000001])
     return rnd.choice(vals)
 
 
